@@ -197,3 +197,4 @@ def oracle(line, out_full, expect):
     ref = nlmp.client_token(user, dom, h, NEG, chal, nonce, key)
     if ref != token: return "token differs from the python reference client's token (first difference at byte %d)" % next((i for i in range(min(len(ref), len(token))) if ref[i] != token[i]), min(len(ref), len(token)))
     return None
+from ties import of as _tie_of; TIE_LAYOUTS, TIE_PINS, TIE_ENUMS = _tie_of("C15")   # static-tie lemmas (coq/Gen/Tie) this property depends on
